@@ -19,9 +19,9 @@ func init() { engine.Register(c17{}) }
 func (c17) ID() string { return "C17" }
 
 func (c17) Meta(tier string) engine.Meta {
-	b := "all ordered pairs of types of depth<=1 (width<=2) over {num,str,bool,time,⊥,'a,'b} × {list,maybe,map,obj{x}/obj{x,y}/obj{y,x},fun}; all same-constructor pairs of the reduced depth-2 set; all pairs of 2-tuples over 14 member types (tree-shaped and pointer-shared DAG-shaped)"
+	b := "all ordered pairs of types of depth<=1 (width<=2) over {num,str,bool,time,⊥,'a,'b} × {list,maybe,map,obj{x}/obj{x,y}/obj{y,x},fun}; all ordered pairs of the reduced depth-2 set (590 types, any constructors); all pairs of 2-tuples over 14 member types (tree-shaped and pointer-shared DAG-shaped)"
 	if tier == "thorough" {
-		b += "; all pairs of the reduced depth-2 set (any constructors); all Equals triples over a 60-type set"
+		b += "; all Equals triples over a 60-type set"
 	}
 	return engine.Meta{
 		Level: "model_checking",
@@ -59,9 +59,6 @@ func (c17) Generate(tier string, yield func(*engine.Case) bool) {
 	d2 := gen.Depth2Reduced()
 	for _, x := range d2 {
 		for _, y := range d2 {
-			if tier != "thorough" && !gen.SameTop(x, y) {
-				continue
-			}
 			if !emit("pair-d2", x, y, nil) {
 				return
 			}
